@@ -1071,7 +1071,7 @@ def is_blocking(node: ast.AST, parent_type: ast.AST = None) -> bool:
         try:
             test_value = literal_value(node.test)
         except ValueError:
-            pass
+            return False  # The loop may not be entered at all
         else:
             if not test_value:
                 return False
